@@ -72,6 +72,12 @@ enum
 
 constexpr bool allowed(int fam, int mask)
 {
+#ifdef C13_NO_RAW
+    // fallback build: without the chains over tapkee's own eigen callbacks (they have exactly one member
+    // function each, so a library that routes a callback into the wrong slot does not compile with them)
+    if (fam == FAM_E)
+        return false;
+#endif
 #if C13_PART == 0
     return mask != 0 && (fam == FAM_U || mask == 7);
 #elif C13_PART == 1
